@@ -71,6 +71,9 @@ class Accessor(SgzReader, Mapping):
             start, stop, step = subscript.indices(len(self))
             return [self.values_function(index) for index in range(start, stop, step)]
         elif subscript < 0:
+            if subscript < -len(self):
+                # Python indexing: only -len..-1 wrap around, anything further is not an item
+                raise IndexError(f"Index {subscript} is out of range [-{len(self)}, {len(self) - 1}]")
             return self.values_function(len(self)+subscript)
         else:
             return self.values_function(subscript)
